@@ -9,9 +9,62 @@ from .registry import GROUPS
 from .tree import VERIF
 
 
+def run_native(path, src):
+    """Replays written by engine E2 (mir2smt): `// kind: native` header + a complete `fn main()` program
+    that panics iff the violation reproduces. Rebuilt against a fresh copy of the repository."""
+    from mir2smt import engine
+
+    def head(key, default=""):
+        m = re.search(r"^// %s:[ \t]*(.*)$" % re.escape(key), src, re.M)
+        return m.group(1).strip() if m else default
+
+    crate = head("crate")
+    feats = [f for f in head("features").split(",") if f.strip()]
+    deff = head("default-features", "false") == "true"
+    if not crate:
+        print("native replay file without a `// crate:` line: %s" % path)
+        return 2
+    appends = []
+    for m in re.finditer(r"^// append-to: (\S+)\n((?:^//\|.*\n)*)^// end-append", src, re.M):
+        text = "\n".join(ln[4:] if ln.startswith("//| ") else ln[3:] for ln in m.group(2).rstrip("\n").split("\n"))
+        appends.append((m.group(1), text))
+    # program = everything after the header comment block
+    lines = src.split("\n")
+    k = 0
+    while k < len(lines) and lines[k].startswith("//"):
+        k += 1
+    main_rs = "\n".join(lines[k:])
+    scratch = tree.make_scratch("replay")
+    try:
+        t = engine.prepare_tree(os.path.join(scratch, "smt"))
+        for f, text in appends:
+            fp = os.path.join(t, f)
+            if not os.path.exists(fp):
+                print("REPLAY: could not run: %s no longer exists in the repository" % f)
+                return 2
+            with open(fp, "a", encoding="utf-8") as fh:
+                fh.write("\n" + text)
+        nat = engine.NativeCrate(os.path.join(scratch, "smt", "native"), t, [(crate, feats, deff)], name="m2s_replay")
+        rc, out, err = nat.run(main_rs)
+        print((out + err)[-3000:])
+        if rc is None:
+            print("REPLAY: could not run: %s" % err[-300:])
+            return 2
+        if rc != 0:
+            m = re.search(r"panicked at ([^\n]*)\n([^\n]*)", err)
+            print("REPLAY: reproduces (%s)" % ((m.group(1) + " " + m.group(2)).strip() if m else "exit code %d" % rc))
+            return 1
+        print("REPLAY: does not reproduce on the current tree")
+        return 0
+    finally:
+        tree.cleanup(scratch)
+
+
 def run(path):
     p = path if os.path.isabs(path) else os.path.join(VERIF, path)
     src = open(p).read()
+    if re.search(r"^// kind: native\s*$", src, re.M):
+        return run_native(path, src)
     m = re.search(r"^// group: (\S+)", src, re.M)
     if not m:
         print("not a replay file: %s" % path)
